@@ -31,6 +31,18 @@ PROPS = {
     "C05": dict(engine="ptable", level="exploration",
                 quick=dict(batches=48, units=250, wall=75),
                 thorough=dict(batches=480, units=500, wall=1500)),
+    "C07": dict(engine="counters", level="exploration",
+                quick=dict(batches=48, units=250, wall=75),
+                thorough=dict(batches=480, units=500, wall=1500)),
+    "C10": dict(engine="counters", level="exploration",
+                quick=dict(batches=48, units=250, wall=75),
+                thorough=dict(batches=480, units=500, wall=1500)),
+    "C14": dict(engine="fdtable", level="exploration",
+                quick=dict(batches=48, units=8, wall=75),
+                thorough=dict(batches=480, units=16, wall=1500)),
+    "C15": dict(engine="vtime", level="exploration",
+                quick=dict(batches=48, units=300, wall=75),
+                thorough=dict(batches=480, units=600, wall=1500)),
     "C03": dict(engine="faultpoint", level="fault_enumeration",
                 quick=dict(batches=32, units=1, wall=75),
                 thorough=dict(batches=320, units=2, wall=1500)),
